@@ -11,7 +11,7 @@ Events == D.events
 VARIABLES l, prev
 Zero(n) == [k \in 1..2*n |-> 0]
 MaxT(n) == [k \in 1..2*n |-> BaseSp(n)[k] - 1]
-EnumOK(e) == LET n == e.n  m == Unpack(e.m, n)  mi == Unpack(e.mi, n) IN
+EnumOK(e) == \E n \in {e.n} : \E m \in {TLCEval(Unpack(e.m, e.n))} : \E mi \in {TLCEval(Unpack(e.mi, e.n))} :
    /\ InRange(e.t, n)
    /\ IF l = 1 THEN (D.first => e.t = Zero(n)) ELSE e.t = SuccT(prev, BaseSp(n), 2*n)
    /\ (l = Len(Events) /\ D.last) => e.t = MaxT(n)
